@@ -46,9 +46,20 @@ MAY_BE_NEGATIVE = {
     "elterngeld_zu_verst_eink_vorjahr_y_sn",
 }
 
+FLOAT_LOWER = {
+    "wohnfläche_hh": 1,  # a dwelling has a positive floor area
+}
+
 FLOAT_UPPER = {
     "arbeitsstunden_w": 168,
 }
+
+# relational clauses of VALID (applied whenever all variables are arguments of the rule at hand)
+RELATIONAL = [
+    (("jahr_renteneintr", "geburtsjahr"), lambda jahr_renteneintr, geburtsjahr: jahr_renteneintr >= geburtsjahr + 18, "nobody retires before the year of the 18th birthday"),
+]
+
+MAX_POINTING = 24  # at most 24 persons point to the same person (children per recipient)
 
 MAGNITUDE = 2**53  # all magnitudes below 2^53 (exactly representable integers)
 
@@ -59,9 +70,29 @@ def input_types():
     return dict(TYPES_INPUT_VARIABLES)
 
 
-def valid_clause(name, term, ty):
+def statutory_mietstufen(params):
+    """The rent levels (Mietstufen) that exist at the date of `params`: the keys of the table of
+    maximum rents for a one-person household (Anlage 1 WoGG) -- I..VI until 2019, I..VII since."""
+    try:
+        tab = params["wohngeld"]["max_miete"][1]
+        if all(not isinstance(v, dict) for v in tab.values()):
+            ks = sorted(k for k in tab if isinstance(k, int))
+            if ks:
+                return ks
+    except (KeyError, TypeError):
+        pass
+    return None
+
+
+def valid_clause(name, term, ty, params=None):
     """z3 constraint for one input variable occurrence (term of python type ty)."""
     cl = []
+    if name == "mietstufe" and params is not None:
+        ks = statutory_mietstufen(params)
+        if ks:
+            import z3 as _z3
+
+            return [_z3.Or(*[term == k for k in ks])]
     if ty == "int":
         lo, hi = INT_RANGES.get(name, (None, None))
         if name not in INT_RANGES:
@@ -73,7 +104,9 @@ def valid_clause(name, term, ty):
         else:
             cl.append(term < MAGNITUDE)
     elif ty == "float":
-        if name not in MAY_BE_NEGATIVE:
+        if name in FLOAT_LOWER:
+            cl.append(term >= FLOAT_LOWER[name])
+        elif name not in MAY_BE_NEGATIVE:
             cl.append(term >= 0)
         else:
             cl.append(term > -MAGNITUDE)
@@ -96,10 +129,18 @@ def valid_for_args(sym_args: dict, suffix=""):
     return cl, used
 
 
+def relational_clauses(vars_by_name: dict):
+    cl = []
+    for names, mk, _ in RELATIONAL:
+        if all(n in vars_by_name for n in names):
+            cl.append(mk(*[vars_by_name[n] for n in names]))
+    return cl
+
+
 def describe():
     return (
         "VALID: documented input ranges (alter 0..120, geburtsmonat 1..12, mietstufe 1..7, steuerklasse 1..6, "
         "behinderungsgrad 0..100, ids >= 0, pointers >= -1, counts/durations/amounts >= 0 except "
         + ", ".join(sorted(MAY_BE_NEGATIVE))
-        + "; all magnitudes < 2^53)"
+        + "; mietstufe among the rent levels in force at the date; at most 24 children per recipient; wohnfläche_hh >= 1; " + "; ".join(t for _, _, t in RELATIONAL) + "; all magnitudes < 2^53)"
     )
